@@ -103,12 +103,16 @@ func (w *W) Guard(c string) {
 
 // Unguard ends the guarded section.
 func (w *W) Unguard() {
+	if w.journal != nil {
+		w.journal.WriteAt([]byte("00000000"), 0) // nothing in flight: a crash outside a guarded section blames no case
+	}
 	w.guardMu.Lock()
 	w.guardCase = ""
 	w.guardMu.Unlock()
 }
 
-var HangAfter = 120 * time.Second
+// HangAfter: a single case (microseconds of work) still running after this long is reported as a hang.
+var HangAfter = 300 * time.Second
 
 func (w *W) watchdog() {
 	for {
@@ -240,7 +244,7 @@ func (w *W) Violate(v Violation) {
 		}
 	}
 	for _, k := range w.known {
-		if k.Status == "known" && k.Property == w.ID && k.Kind == v.Kind && strings.Contains(v.Case, k.CaseContain) {
+		if k.Status == "known" && k.Property == w.ID && k.Kind == v.Kind && strings.Contains(v.Case, k.CaseContain) && strings.Contains(v.Detail, k.DetailContain) {
 			if w.P.KnownHits == nil {
 				w.P.KnownHits = map[string]int64{}
 			}
@@ -277,6 +281,8 @@ type KnownFinding struct {
 	Commit      string `json:"commit,omitempty"`
 	Kind        string `json:"kind"`
 	CaseContain string `json:"case_contains"`
+	// DetailContain, when set, must also occur in the violation's detail.
+	DetailContain string `json:"detail_contains,omitempty"`
 	Description string `json:"description"`
 }
 
@@ -385,12 +391,20 @@ func Main(c *Check, tier string, rest []string) int {
 				if c.CrashIsViolation && fatal {
 					jb, _ := os.ReadFile(filepath.Join(dir, fmt.Sprintf("p%d.json.journal", r.i)))
 					cs := "(no case journalled)"
+					inFlight := false
 					if len(jb) >= 8 {
 						var n int
 						fmt.Sscanf(string(jb[:8]), "%d", &n)
-						if 8+n <= len(jb) {
+						if n > 0 && 8+n <= len(jb) {
 							cs = string(jb[8 : 8+n])
+							inFlight = true
 						}
+					}
+					if !inFlight {
+						// the worker died outside a guarded case: that is the harness's problem, not the library's
+						crashed = true
+						fmt.Fprintf(os.Stderr, "HARNESS: worker %d died outside a guarded case: %v\n%s\n", r.i, r.err, lg)
+						continue
 					}
 					first := lg
 					if i := strings.Index(first, "\n\n"); i > 0 && i < 600 {
@@ -515,7 +529,7 @@ func finish(c *Check, tier string, parts []*Partial, wall time.Duration) int {
 		seenV[key] = true
 		matched := false
 		for i, k := range known {
-			if k.Status == "known" && k.Property == c.ID && k.Kind == v.Kind && strings.Contains(v.Case, k.CaseContain) {
+			if k.Status == "known" && k.Property == c.ID && k.Kind == v.Kind && strings.Contains(v.Case, k.CaseContain) && strings.Contains(v.Detail, k.DetailContain) {
 				knownHit[i]++
 				matched = true
 				break
